@@ -3,6 +3,7 @@ package props
 import (
 	"encoding/json"
 	"fmt"
+	"mime"
 	"net/http"
 	"net/url"
 	"reflect"
@@ -30,9 +31,12 @@ func (c15) ID() string { return "C15" }
 var c15Methods = []string{"GET", "HEAD", "POST", "PUT", "PATCH", "DELETE", "OPTIONS"}
 
 var c15ContentTypes = []string{"", "application/json", "application/json; charset=utf-8", "application/json;charset=UTF-8", "Application/JSON", "application/json ; charset=utf-8", " application/json",
-	"application/x-www-form-urlencoded", "application/x-www-form-urlencoded; charset=utf-8", "APPLICATION/X-WWW-FORM-URLENCODED", "text/plain", "multipart/form-data; boundary=x", "application/jsonx", "application/x-json", "json"}
+	"application/x-www-form-urlencoded", "application/x-www-form-urlencoded; charset=utf-8", "APPLICATION/X-WWW-FORM-URLENCODED", "text/plain", "multipart/form-data; boundary=x", "application/jsonx", "application/x-json", "json",
+	// parameters are ignored, whatever they look like: duplicated, valueless, badly quoted, empty
+	"application/json; charset=utf-8; charset=utf-8", "application/json; charset=utf-8; Charset=latin1", "application/json; a=1; a=2", "application/json; charset", "application/json;", "application/json; q=\"unterminated", "application/x-www-form-urlencoded; charset=utf-8; CHARSET=latin1", "application/x-www-form-urlencoded;;"}
 
 const c15JSON = `{"src":"json","only_b":"json-only","list":["j1","j2"],"num":7,"nested":{"v":"jn"}}`
+const c15Multipart = "--x\r\nContent-Disposition: form-data; name=\"src\"\r\n\r\nmultipart-body\r\n--x\r\nContent-Disposition: form-data; name=\"only_b\"\r\n\r\nmultipart-only\r\n--x--\r\n"
 const c15Form = `src=form-body&only_b=form-only&list=f1&list=f2&arr[]=a1&fnum=8&v=fn`
 
 func c15Bodies() []string {
@@ -41,7 +45,7 @@ func c15Bodies() []string {
 		out = append(out, c15JSON[:i])
 	}
 	out = append(out, c15JSON, `[1,2]`, `"str"`, `12`, `null`, `true`, `{}`, ` {} `, `{"src":null}`, `{"src":"json","list":"scalar","num":"9"}`, `{"list":[]}`, `{"nested":"x"}`, `{"nested":{}}`,
-		c15Form, `src=%zz`, `src=ok&bad=%`, `src=a;only_b=b`, ``, `src=`, `list=one`, `arr[]=`, `arr[]=x&arr[]=y`, `src=+sp+&list=a%20b`, `&&=&`)
+		c15Form, c15Multipart, `src=%zz`, `src=ok&bad=%`, `src=a;only_b=b`, ``, `src=`, `list=one`, `arr[]=`, `arr[]=x&arr[]=y`, `src=+sp+&list=a%20b`, `&&=&`)
 	return out
 }
 
@@ -153,10 +157,29 @@ func c15Request(c *core.Ctx, n *spec.Node, method, ct, body, query string) bool 
 	calls := 0
 	b := spec.Build(n, &spec.Hooks{OnTest: func(*spec.Node, *spec.Test, any, z.Ctx) { calls++ }})
 	prior := gen.Prefill(c.R, n, true)
+	preParsed := false
+	if kind == "form" {
+		if _, _, err := mime.ParseMediaType(ct); err != nil {
+			// "the form as net/http defines it": net/http itself refuses to parse a form whose Content-Type parameters are malformed; not judged
+			c.Count("skipped_open_corner", 1)
+			return true
+		}
+	}
+	if kind != "json" && !decodeErr && c.R.Intn(4) == 0 {
+		// a middleware looked at the form before the handler ran (r.FormValue parses and caches r.Form)
+		_ = r.FormValue("zz_unrelated")
+		preParsed = true
+	}
 	o := run.Parse(b, zhttp.Request(r), prior)
 	c.Eval(1)
+	defer func() {
+		// handlers hand the issues back (documented usage); later requests of this case run on the recycled objects
+		if o != nil && !o.Panicked && o.RawMap != nil && c.R.Intn(2) == 0 {
+			z.Issues.CollectMap(o.RawMap)
+		}
+	}()
 	det := func(extra map[string]any) map[string]any {
-		m := map[string]any{"method": method, "content_type": ct, "body": trunc(body, 200), "query": query, "documented_source": kind, "issues": issuesText(o), "destination": obs.Render(o.Dest), "destination_before": obs.Render(prior)}
+		m := map[string]any{"method": method, "content_type": ct, "body": trunc(body, 200), "query": query, "documented_source": kind, "form_pre_parsed_by_middleware": preParsed, "issues": issuesText(o), "destination": obs.Render(o.Dest), "destination_before": obs.Render(prior)}
 		for k, v := range extra {
 			m[k] = v
 		}
